@@ -221,6 +221,8 @@ func runC04(c *Ctx) {
 	// ---------- checksum verification routine is exactly polymod(expand(hrp) ‖ data) == 1 (shared with C16)
 	c16Resolve(c, "C04")
 
+	pureScan(c, "C04.pure.no-package-state", fn)
+
 	// ---------- case validation helper: both probes, mixed iff both found
 	c04Case(c, fn, b)
 
